@@ -9,7 +9,7 @@ RULE = ("PhytoOut transitions (state before/after the call in sub-step 1) of tra
         "rotations over every shipped annual main-crop parameter set (SM, SOY + 8 varieties, SW, OA, WW, WG, WR, TR, WRA, K, "
         "ZR + chrnew, LUP), classic and YAML parameter format, CO2 methods 1-3, N supply 0..400 kg/ha, shipped soils incl. "
         "10/30 cm root limits and custom profiles with the root limit at the profile depth, weather scenarios historical/extreme rain/drought/frost/"
-        "sunshine station with missing records/radiation file with missing records (runs of 1, 2, 5 days), automatic sowing windows; days that hit a clamp (organ floor, "
+        "sunshine station with missing records/radiation file with missing records (runs of 1, 2, 5 days), automatic sowing windows, latitudes 52.7 and 55..69.65 for overwintering crops; hermes.CalculateDayLenght on a latitude x day grid (fixed polar/twilight points + random); days that hit a clamp (organ floor, "
         "LAI zero, REDUK < 1, root limit, uptake caps, fixation, stage advance) are always compared, plain days are sampled; "
         "a case is non-trivial when distinct and inside the growth block; on one emitted day in four the real PhytoOut is replayed on copies "
         "with every other N-content function NGEFKT = 0..9; branch coverage of the root/shoot N update is listed in input_distribution")
@@ -163,10 +163,10 @@ def write_custom_soils(dst, name):
 
 def batch_line(name, sp, y0, end):
     custom = sp["soil"] in custom_soil_ids()
-    return ("project=%s WeatherFolder=%s soilId=%s fcode=109_120 plotNr=10001 Altitude=73 Latitude=52.6732 poligonID=29872 "
+    return ("project=%s WeatherFolder=%s soilId=%s fcode=109_120 plotNr=10001 Altitude=73 Latitude=%s poligonID=29872 "
             "CO2method=%d CropParameterFormat=%s CropFileFormat=csv %sAutoIrrigation=0 AutoFertilization=0 AutoSowingHarvest=%d AutoHarvest=0 "
             "StartYear=%d ResultFileFormat=0 EndDate=%s resultfolder=R9/%s"
-            % (name, sp["weather"], sp["soil"], sp["co2"], "yml" if sp["yml"] else "txt", ("SoilFileExtension=csv " if custom else "") + ("WeatherNoneValue=-99.9 " if sp["weather"] in GAP_SCENARIOS else ""),
+            % (name, sp["weather"], sp["soil"], "%g" % sp.get("lat", 52.6732), sp["co2"], "yml" if sp["yml"] else "txt", ("SoilFileExtension=csv " if custom else "") + ("WeatherNoneValue=-99.9 " if sp["weather"] in GAP_SCENARIOS else ""),
                1 if sp.get("autosow") else 0, y0, _d(12, 31, end[2]), name))
 
 
@@ -207,6 +207,7 @@ def weather_scenarios(ex, seed):
 
 
 GAP_SCENARIOS = ("sungaps", "radgaps")
+HIGH_LATITUDES = [55, 58, 59, 60.5, 62, 66, 69.65]
 
 
 def gap_scenarios(ex, seed):
@@ -267,14 +268,14 @@ def plan(ctx):
     scen = ["historical", "extreme", "drought", "frost", "sungaps", "radgaps"]
     nlevels = [0, 60, 150, 400]
 
-    def add(crops, soil, weather, co2, nlevel, yml, start, autosow=False):
+    def add(crops, soil, weather, co2, nlevel, yml, start, autosow=False, lat=52.6732):
         name = "c9p%d" % len(runs)
         rows = build_rotation(rnd, crops, start)
         y0, end = write_project(ex, name, rows, nlevel, rnd, autosow)
         tag = "%s|soil=%s|%s|co2=%d|N=%d|%s%s" % ("+".join(c + (("_" + v) if v else "") for c, v in crops), soil, weather, co2, nlevel,
-                                                   "yml" if yml else "txt", "|autosow" if autosow else "")
+                                                   "yml" if yml else "txt", ("|autosow" if autosow else "") + ("|lat=%g" % lat if lat != 52.6732 else ""))
         spec = {"crops": [list(c) for c in crops], "soil": soil, "weather": weather, "co2": co2, "nlevel": nlevel,
-                "yml": yml, "start": start, "seed": ctx.seed, "autosow": autosow}
+                "yml": yml, "start": start, "seed": ctx.seed, "autosow": autosow, "lat": lat}
         runs.append({"name": name, "rows": rows, "args": batch_line(name, spec, y0, end), "yml": yml, "tag": tag, "end": end, "spec": spec})
 
     if not ctx.thorough:
@@ -298,6 +299,10 @@ def plan(ctx):
         # automatic sowing inside a window (temperature rule in April, latest date 31 May): a standing crop must not be sown again
         add([("SM", ""), ("SOY", rnd.choice(SOY_VARIETIES)), ("SM", "")], rnd.choice(["075", "160", "002"]), "historical", 1 + ctx.seed % 3,
             150, ctx.seed % 2 == 0, 1981 + rnd.randrange(0, 20), autosow=True)
+        # an overwintering crop north of the latitude where the effective day length vanishes around the winter solstice (58.6)
+        # resp. the photoperiodic day lasts 24 h around the summer solstice (60.5)
+        add([(rnd.choice(["WW", "WG", "WR", "TR"]), ""), ("WRA", "")], rnd.choice(["075", "160", "002", "041"]), "historical", 1 + (ctx.seed + 2) % 3,
+            150, ctx.seed % 2 == 1, 1981 + rnd.randrange(0, 20), lat=rnd.choice(HIGH_LATITUDES[2:]))
         # deep-rooting crops on profiles whose root limit is the profile depth (or one / two layers less): historical
         # weather and fertiliser so that the root front reaches the bottom
         deep = DEEP_CROPS[:]
@@ -324,6 +329,11 @@ def plan(ctx):
         for j in range(6):
             add([("SM", ""), ("SOY", SOY_VARIETIES[j]), ("SM", ""), ("SOY", SOY_VARIETIES[j + 2])], SOILS_ALL[(3 * j) % len(SOILS_ALL)],
                 ["historical", "drought", "frost"][j % 3], 1 + j % 3, [150, 0][j % 2], j % 2 == 0, 1981 + rnd.randrange(0, 18), autosow=True)
+        for j, la in enumerate(HIGH_LATITUDES):
+            add([(WINTER[j % 4], ""), ("WRA", ""), (WINTER[(j + 1) % 4], "")], SOILS_ALL[(2 * j) % len(SOILS_ALL)], ["historical", "frost"][j % 2],
+                1 + j % 3, [150, 60][j % 2], j % 2 == 0, 1981 + rnd.randrange(0, 18), lat=la)
+            add([("SW", ""), (WINTER[(j + 2) % 4], "")], SOILS_ALL[(2 * j + 1) % len(SOILS_ALL)], "historical", 1 + (j + 1) % 3, 60, j % 2 == 1,
+                1981 + rnd.randrange(0, 18), lat=la)
         # every deep-rooting crop on every custom profile (root limit N, N-1, N-2)
         ids = custom_soil_ids()
         for j, sid in enumerate(ids):
@@ -438,8 +448,48 @@ def eval_cases(ctx, corr, days, shard=40):
     corr.cases += len(recs)
 
 
+def dl_run(ctx):
+    return waterlib.run_harness(ctx, "c09dl", ["-seed", str(ctx.seed), "-n", "4000" if ctx.thorough else "500"])
+
+
+def dl_correspond(ctx, c):
+    rc, cases, orc, other, err = dl_run(ctx)
+    if rc != 0:
+        c.mismatches.append({"kind": "harness-crash", "stderr": err[-1500:]})
+        return
+    pts = [x for x in cases if x["k"] == "dl"]
+    recs = ["{| dlo_in := {| dl_sinld := %s; dl_cosld := %s; dl_s8 := %s; dl_s6 := %s; dl_pi := %s; dl_v0 := %s; dl_v1 := %s; dl_v2 := %s |}; "
+            "dlo_a0 := %s; dlo_a1 := %s; dlo_a2 := %s; dlo_dl := %s; dlo_dle := %s; dlo_dlp := %s |}"
+            % tuple(fl(x[k]) for k in ("sinld", "cosld", "s8", "s6", "pi", "v0", "v1", "v2", "a0", "a1", "a2", "o_dl", "o_dle", "o_dlp")) for x in pts]
+    items, shard = [], 400
+    for k in range(0, len(recs), shard):
+        body = HDR + ["Definition cases : list dl_obs := [\n%s\n]." % ";\n".join(recs[k:k + shard]),
+                      "Definition M := Eval vm_compute in dl_mismatches %d%%nat cases." % k, "Print M."]
+        items.append(("Cases_c09dl_%d" % (k // shard), "\n".join(body) + "\n"))
+    for nm, rc2, o in ctx.coq_eval_many(items, timeout=900):
+        m = re.search(r"M\s*=\s*(.*?)\s*:\s*list \(nat \* nat\)", o, re.S)
+        if rc2 != 0 or not m:
+            c.mismatches.append({"kind": "coq-eval", "shard": nm, "output": o[-1500:]})
+            continue
+        pairs = re.findall(r"\((\d+)(?:%nat)?,\s*(\d+)(?:%nat)?\)", m.group(1))
+        if m.group(1).strip() != "[]" and not pairs:
+            c.mismatches.append({"kind": "coq-eval", "shard": nm, "output": o[-1500:]})
+        for idx, mask in pairs[:10]:
+            x = pts[int(idx)]
+            c.mismatches.append({"kind": "day-length-kernel", "differs": [n for j, n in enumerate(["hours", "asin-argument"]) if int(mask) >> j & 1],
+                                 "lat": x["lat"], "day": x["tag"], "observed": [x["o_dl"], x["o_dle"], x["o_dlp"]]})
+    for x in pts:
+        if not x["dec_ok"]:
+            c.mismatches.append({"kind": "mirror-mismatch", "what": "declination", "lat": x["lat"], "day": x["tag"]})
+            break
+    c.cases += len(recs)
+    c.dist["day-length-grid-points"] = len(recs)
+    c.dist["day-length-polar-points"] = sum(1 for x in pts if x["a1"] in ("0x1p+00", "-0x1p+00") or x["a2"] in ("0x1p+00", "-0x1p+00"))
+
+
 def correspond(ctx):
     c = Corr()
+    dl_correspond(ctx, c)
     ex, runs, rc, cases, orc, err = run(ctx)
     if rc != 0:
         c.mismatches.append({"kind": "harness-crash", "stderr": err[-1500:]})
@@ -488,14 +538,31 @@ def doy(datestr):
     return (datetime.date(y, m, d) - datetime.date(y, 1, 1)).days + 1
 
 
+def _num_tokens(line):
+    """tokens of a fixed-width .RES row; numbers that ran into each other ('0.5-1.234') are split at the sign"""
+    first, _, rest = line.strip().partition(" ")
+    return [first] + re.findall(r"-?\d+(?:\.\d+)?(?:[eE][-+]?\d+)?|NaN|[+-]?Inf|[^\s\d-][^\s]*|-+", rest)
+
+
+def _fnum(t):
+    try:
+        return float(t)
+    except ValueError:
+        return float("nan")
+
+
 def crop_file_rows(ctx, name):
-    """rows of the crop result file C*.RES: (crop, harvest year, sow, emerg, anth, mat, harv DOYs, sowing date)"""
+    """rows of the crop result file C*.RES: (crop, harvest year, sow, emerg, anth, mat, harv DOYs, sowing date,
+    {Biomass, LAImax, Nuptake, TRRel, Reduk})"""
     out = []
     for p in glob.glob(os.path.join(ctx.work, "R9", name, "C*")):
         for ln in open(p).read().split("\n")[2:]:
-            t = ln.split()
-            if len(t) >= 8 and t[5].isdigit():
-                out.append((t[7], int(t[5]), int(t[1]), int(t[2]), int(t[3]), int(t[4]), int(t[6]), t[0]))
+            t = _num_tokens(ln) if ln.strip() else []
+            if len(t) >= 33 and t[5].isdigit():
+                extra = {"Biomass": _fnum(t[9]), "LAImax": _fnum(t[11]), "Nuptake": _fnum(t[14]), "TRRel": _fnum(t[31]), "Reduk": _fnum(t[32])}
+                out.append((t[7], int(t[5]), int(t[1]), int(t[2]), int(t[3]), int(t[4]), int(t[6]), t[0], extra))
+            elif ln.strip():
+                out.append(("?", 0, None, None, None, None, None, ln[:40], None))
     return out
 
 
@@ -512,6 +579,10 @@ def oracle(ctx, search):
         run_ = runs[int(m.group(4))] if m and int(m.group(4)) < len(runs) else None
         fails.append(Fail(key=key, what=l, spec=(run_["spec"] if run_ else None), batch_line=(run_["args"] if run_ else None),
                           how_to_replay="./check C09 --replay <this file> (rebuilds the scratch project from 'spec' and re-runs the traced oracle)"))
+    for l in dl_run(ctx)[2]:
+        m = re.match(r"daylength-invalid:(\S+) lat=(\S+) day=(\S+)", l)
+        fails.append(Fail(key="daylength-invalid:%s" % (m.group(1) if m else "?"), what=l,
+                          how_to_replay="hermes.CalculateDayLenght(day, lat) with the printed day and latitude"))
     # reported phenology: the crop result file must show the day-of-year of the traced stage dates, in order
     crops = [x for x in cases if x["k"] == "crop"]
     byline = {}
@@ -530,9 +601,30 @@ def oracle(ctx, search):
             checked += 1
             dev = x["dev"]
             want = (doy(x["sowdate"]), dev[1], dev[4], dev[5], x["doy"])
-            if tuple(row[2:7]) != want or row[7] != x["sowdate"]:
+            if row[8] is not None and (tuple(row[2:7]) != want or row[7] != x["sowdate"]):
                 fails.append(Fail(key="crop-file:phenology-differs-from-run:crop=%s" % x["crop"],
                                   what="crop file row %s, run reached %s (%s)" % (row, want, r_["tag"]), spec=r_["spec"], batch_line=r_["args"]))
+            # the crop record clause: season means in [0,1] and equal to sum / (ERNTE - SAAT) of the run, masses finite and >= 0
+            ex_ = row[8]
+            if ex_ is None:
+                fails.append(Fail(key="crop-file:row-unreadable:crop=%s" % x["crop"], what="crop file row %r (%s)" % (row[7], r_["tag"]),
+                                  spec=r_["spec"], batch_line=r_["args"]))
+                continue
+            for nm, mean in (("TRRel", x["trrel_mean"]), ("Reduk", x["reduk_mean"])):
+                v = ex_[nm]
+                if not (-0.0005 <= v <= 1.0005):
+                    fails.append(Fail(key="crop-file:season-mean-outside-0-1:%s:crop=%s" % (nm, x["crop"]),
+                                      what="crop file %s=%r, sown %s harvested %s (%d days), run: sum/days=%r (%s)"
+                                           % (nm, v, x["sowdate"], x["harvestdate"], x["days"], mean, r_["tag"]), spec=r_["spec"], batch_line=r_["args"]))
+                elif not abs(v - mean) <= 0.00051:
+                    fails.append(Fail(key="crop-file:season-mean-differs-from-run:%s:crop=%s" % (nm, x["crop"]),
+                                      what="crop file %s=%r, run: sum/(ERNTE-SAAT)=%r over %d days (%s)" % (nm, v, mean, x["days"], r_["tag"]),
+                                      spec=r_["spec"], batch_line=r_["args"]))
+            for nm in ("Biomass", "LAImax", "Nuptake"):
+                v = ex_[nm]
+                if not (v >= 0 and v < float("inf")):
+                    fails.append(Fail(key="crop-file:%s-invalid:crop=%s" % (nm, x["crop"]), what="crop file %s=%r (%s)" % (nm, v, r_["tag"]),
+                                      spec=r_["spec"], batch_line=r_["args"]))
             # unrolled order sowing <= emergence <= anthesis <= maturity <= harvest (0 = stage not reached)
             seq = [v for v in row[2:7] if v]
             wraps = sum(1 for a, c_ in zip(seq, seq[1:]) if c_ < a)
